@@ -9,7 +9,7 @@ The closed theorem `parse … = r → Sem … r` (for the *plain* fragment below
 
 Plain fragment (`plainNode`): Literal (both classes), Empty, NoMatch, StringEnd, the character-class terminals Word /
 CharsNotIn / Keyword / CaselessLiteral / LineEnd / WordStart / WordEnd (taken as given matchers), And (non-empty, no error stop),
-MatchFirst, Opt (with or without default), OneOrMore / ZeroOrMore (no stop_on), NotAny, FollowedBy, Group, Suppress,
+MatchFirst, Or, Opt (with or without default), OneOrMore / ZeroOrMore (no stop_on), NotAny, FollowedBy, Group, Suppress,
 Combine (its `adjacent` is the children's whitespace configuration), assigned
 Forward, plain wrappers; no parse actions / results names, no ignorables. Whitespace skipping (`skipWhitespace`,
 `whiteChars`, `callPreparse`) is unrestricted — it is the point of the property.
@@ -58,6 +58,18 @@ def dfltToks : Option (List Char) → List Tok
   | none => []
   | some v => [.s v]
 
+/-- `^`: of the head alternative's match and the best match among the remaining ones, the one that ends later — the
+    head's on a tie (so: the longest, leftmost among equally long ones) -/
+def pick : Res → Res → Res
+  | none, r2 => r2
+  | some x, none => some x
+  | some x, some y => if y.1 > x.1 then some y else some x
+
+/-- where the alternatives of an `Or` are tried: `Or` skips whitespace itself exactly when every alternative would
+    (core.py:4268-4272), otherwise each alternative skips for itself from the location `Or` was called at -/
+def orStart (g : Grammar) (nd : Node) (s : List Char) (es : List Nat) (loc : Nat) : Nat :=
+  if es.all (callPreOf g) && nd.skipWs then skipWhite nd.white s loc else loc
+
 inductive Task where
   /-- `expr._parse(instring, loc, callPreParse = cp)` of the node `id` -/
   | node (id loc : Nat) (cp : Bool)
@@ -69,6 +81,8 @@ inductive Task where
   | alt (es : List Nat) (loc : Nat)
   /-- further iterations of a repetition -/
   | star (e loc : Nat) (acc : List Tok)
+  /-- longest-match choice among the alternatives `es`, all tried at `loc` -/
+  | orScan (es : List Nat) (loc : Nat)
 
 /-- the PEG reading -/
 inductive Sem (g : Grammar) (s : List Char) : Task → Res → Prop where
@@ -90,6 +104,11 @@ inductive Sem (g : Grammar) (s : List Char) : Task → Res → Prop where
   | altNil {loc} : Sem g s (.alt [] loc) none
   | altOk {e es loc x} : Sem g s (.node e loc true) (some x) → Sem g s (.alt (e :: es) loc) (some x)
   | altNext {e es loc r} : Sem g s (.node e loc true) none → Sem g s (.alt es loc) r → Sem g s (.alt (e :: es) loc) r
+  /-- `a ^ b ^ …`: every alternative is tried at the same location; the longest match wins, the leftmost on a tie -/
+  | or {nd loc es r} : nd.kind = .or es → Sem g s (.orScan es (orStart g nd s es loc)) r → Sem g s (.impl nd loc) r
+  | orNil {loc} : Sem g s (.orScan [] loc) none
+  | orCons {e es loc r1 r2} : Sem g s (.node e loc true) r1 → Sem g s (.orScan es loc) r2 →
+      Sem g s (.orScan (e :: es) loc) (pick r1 r2)
   /-- `Opt(e)` / `Opt(e, default)`: `e`'s match, else the empty match (or the default value) where Opt started -/
   | opt {nd loc e d r} : nd.kind = .opt e d → Sem g s (.node e loc false) r →
       Sem g s (.impl nd loc) (some (r.getD (loc, dfltToks d)))
